@@ -30,7 +30,11 @@ BATCH = 50
 
 def plan(tier, seed):
     n = 12000 if tier == "quick" else 200000
-    return [{"seed": seed, "lo": i, "hi": min(n, i + BATCH), "tier": tier} for i in range(0, n, BATCH)]
+    specs = [{"seed": seed, "lo": i, "hi": min(n, i + BATCH), "tier": tier} for i in range(0, n, BATCH)]
+    k = 4 if tier == "quick" else 30
+    specs += [{"seed": seed, "lo": 10**7 + i * BATCH, "hi": 10**7 + (i + 1) * BATCH, "tier": tier, "interpreter": "optimize"} for i in range(k)]  # python -O
+    specs += [{"seed": seed, "lo": 2 * 10**7 + i * BATCH, "hi": 2 * 10**7 + (i + 1) * BATCH, "tier": tier, "interpreter": "no_orjson"} for i in range(k)]
+    return specs
 
 
 def deep_or_wide(rng, g):
